@@ -174,6 +174,10 @@ def handleRGraph (j : Json) : R Json := do
   pure (Json.mkObj [("adds", Json.arr (adds.map fun a =>
     Json.arr #[rnodeToJson a.src, rnodeToJson a.dst, Json.str (rattrToStr a.attr), ratToJson a.val]).toArray)])
 
+def handleWellPosed (j : Json) : R Json := do
+  let els ← listOf elementOf (← getF j "els")
+  pure (Json.mkObj [("wp", Json.bool (wellPosed els))])
+
 def handle (j : Json) : R Json := do
   let op ← strOf (← getF j "op")
   match op with
@@ -186,6 +190,7 @@ def handle (j : Json) : R Json := do
   | "FFRUN" => handleFFRun j
   | "PARSE" => handleParse j
   | "RGRAPH" => handleRGraph j
+  | "WELLPOSED" => handleWellPosed j
   | "ASSIGN" => handleAssign j
   | "COMPATMAT" => handleCompatMat j
   | _ => throw s!"unknown op {op}"
